@@ -13,7 +13,7 @@ from . import session
 
 CLAUSES = {"C04": ["D1", "D2", "D3", "D4", "DH"], "C05": ["N1", "N2", "N3", "N4", "N5"],
            "C11": ["G1", "G2", "G3", "G4", "G5"], "C06": ["R1", "R2", "R3", "R4", "R5", "R6"]}
-KF = {"KF_StoredInLag": "TRUE", "KF_WriteBeforeJournal": "TRUE"}
+KF = {"KF_StoredInLag": "FALSE", "KF_WriteBeforeJournal": "FALSE"}
 ALLPROPS = "D1 D2 D3 D4 N1 N2 N3 N4 N5 G1 G2 G3 G4 G5 R".split()
 
 
